@@ -47,3 +47,13 @@ func init() {
 }
 
 var rangeStubs = map[string]intrinsicFn{}
+
+func init() {
+	// atomic.Pointer used as a memo cache of a pure computation: Load misses, Store is dropped.
+	intrinsics["(*sync/atomic.Pointer[T]).Load"] = func(ex *Exec, st *State, fn *ssa.Function, args []Value, depth int) []Value {
+		return []Value{PtrV{}}
+	}
+	intrinsics["(*sync/atomic.Pointer[T]).Store"] = func(ex *Exec, st *State, fn *ssa.Function, args []Value, depth int) []Value {
+		return nil
+	}
+}
